@@ -41,6 +41,10 @@ def jobs(tier):
                   symbolic=["state (5)", "flags", "tokens (u64)", "ctx state/flags", "op", "on_start result",
                             "re-entrant action inside on_start (none/pause/stop/deregister self)"],
                   bounds="one step + one nested call", timeout=900, **common))
+    js.append(Job("C01.step.restartinstop", "l1/c01_step.c", defines=dict(DEFS, VF_INNER_STOP=None), unwind=6,
+                  symbolic=["state (5)", "flags", "tokens (u64)", "ctx state/flags", "other running modules", "op (stop/deregister)"],
+                  bounds="one stop/deregister whose stop callback restarts its own module once (accepting start callback)",
+                  kf=["C01_restart_in_deregister"], timeout=900, **common))
     for nm in ([3] if tier == "quick" else [3, 4]):
         js.append(Job("C01.evalpass.NM%d" % nm, "l1/c01_eval.c", defines=dict(DEFS, NM=nm), unwind=8,
                       symbolic=["state of each module", "on_eval present/result per module", "on_start result per module"],
@@ -68,7 +72,7 @@ MANIFEST = {
     "text": "Bounded model checking of the real lifecycle code of mod.c: one call from every state x flags x tokens x "
             "context state (the transition relation is decided completely for one step, incl. a nested call from "
             "on_start), and one evaluation pass over NM modules with every combination of states and callback results; "
-            "callback counts, running-module counter and MOD_STARTED/MOD_STOPPED emission are asserted; on_eval re-entering the lifecycle of its own module (deregister / stop / start)",
+            "callback counts, running-module counter and MOD_STARTED/MOD_STOPPED emission are asserted; on_eval re-entering the lifecycle of its own module (deregister / stop / start); on_stop restarting its own module during stop / deregister (known finding C01_restart_in_deregister)",
     "note": "polling layer (manage_srcs, init_pubsub_fd) stubbed to success in the unit; multi-call histories rely on the "
             "one-step relation plus the whole-core scenarios; bound modules outside the claim",
 }
